@@ -28,7 +28,7 @@ func VerifC01_Api2() {
 	w := vInit()
 	vBindHealth()
 	verifBind("os.Stat", vStatDir)
-	scen := []string{"missing.sibling", "restarted.dep", "update.adds.both", "dep.stopped.before.ready.line", "dep.restarted.before.ready.line"}[verifChooseK("scenario", 5)]
+	scen := []string{"missing.sibling", "restarted.dep", "update.adds.both", "dep.stopped.before.ready.line", "dep.restarted.before.ready.line", "started.dep.stopped.while.pending", "started.dep.caught.by.shutdown.while.pending"}[verifChooseK("scenario", 7)]
 	verifShape(scen)
 	var mu sync.Mutex
 	condMet := false // ground truth of the one condition under test
@@ -121,6 +121,28 @@ func VerifC01_Api2() {
 		verifAssert("web.not.launched.without.the.ready.line", vGet(w.starts, "web") == 0)
 		_ = r.ShutDownProject()
 		<-runDone
+	case "started.dep.stopped.while.pending", "started.dep.caught.by.shutdown.while.pending":
+		// base runs; mid waits for base to complete; web waits for mid to be started (released
+		// from its dependencies). mid is stopped while it is still waiting - by the API or by a
+		// project shutdown: it was never released, web must not be launched
+		base := vConf("base", nil)
+		mid := vConf("mid", map[string]string{"base": types.ProcessConditionCompleted})
+		web := vConf("web", map[string]string{"mid": types.ProcessConditionStarted})
+		w.behav["base"] = &vBehav{untilStop: []bool{true}}
+		w.behav["mid"] = &vBehav{untilStop: []bool{true}}
+		w.behav["web"] = &vBehav{untilStop: []bool{true}}
+		r := vRunner(vProject(base, mid, web), false)
+		go func() { runDone <- r.Run() }()
+		verifQuiesce()
+		verifAssert("only.base.runs", vAliveNames() == "base")
+		if scen == "started.dep.stopped.while.pending" {
+			_ = r.StopProcess("mid")
+			verifQuiesce()
+			verifAssert("web.not.launched", vGet(w.starts, "web") == 0)
+		}
+		_ = r.ShutDownProject()
+		<-runDone
+		verifAssert("web.never.launched", vGet(w.starts, "web") == 0)
 	case "update.adds.both":
 		verifSymbolicMapOrderIn("UpdateProject")
 		verifSymbolicMapOrderIn("GetProcesses")
